@@ -89,6 +89,24 @@ CHECKS.update({
              'the errored set is the per-call obligation errored-set-only-'
              'grows plus induction over calls.',
         ref='DESIGN.md section 4 C06'),
+    'C08': dict(
+        text='mask_dict_password proved by structural induction: the '
+             'recursive call and mask_password are replaced by opaque '
+             'contracts that record their arguments; the real body is proved '
+             'for a one-item mapping with an ARBITRARY key (symbolic str with '
+             'the 35-key scan, int, tuple, bytes) and every value kind, for a '
+             'multi-item mapping (one output entry per input entry, order, '
+             '`continue`), for non-dict Mapping types, empty mappings and '
+             'non-mappings (TypeError); fresh output dict, argument and '
+             'reachable values unmodified (identity + content), secret '
+             'forwarded to nested calls. Key list compared with the '
+             'documented one. Bounded stand-in: 400 seeded nested mappings '
+             'against an oracle written from the property.',
+        note='str.lower and substring tests on its result are uninterpreted '
+             '(shared by code and contract); dict with a symbolic key held by '
+             'identity; Mapping.items() purity for arbitrary Mapping types '
+             '(A-STATIC); pyvc, z3.',
+        ref='DESIGN.md section 4 C08'),
     'C10': dict(
         text='(1) Regular-language lemmas (z3 RegLan, translated on every run '
              'from the real pattern strings in UNIT_SYSTEM_INFO via CPython\'s '
